@@ -696,6 +696,7 @@ func pipelineTest(t *testing.T, prop, rule string, maxPhaseLen int) {
 	runRegress(t, prop)
 	envs := map[string]*wire.GenEnv{"ipfix": wire.NewGenEnv("ipfix"), "nf9": wire.NewGenEnv("nf9")}
 	envs["ipfix"].NoEnterprise = true // the driver process has the built-in information model only
+	envs["ipfix"].Big, envs["nf9"].Big = true, true
 	rapid.Check(t, func(t *rapid.T) {
 		proto := rapid.SampledFrom(robustProtos).Draw(t, "proto")
 		c := genPipeline(t, proto, envs, maxPhaseLen)
